@@ -103,6 +103,7 @@ type Sweep struct {
 }
 
 type ContractDB struct {
+	Effects    []EffectDirective
 	Sweeps     []Sweep
 	GlobalInvs []GlobalInv
 	Funcs map[string]*FuncContract // key: pkgpath + " " + Key   (assumed: Key only, fully qualified)
@@ -116,7 +117,7 @@ var clauseKeywords = map[string]bool{"func": true, "iface": true, "requires": tr
 	"nopanic": true, "inline": true, "pure": true, "panics": true, "loop": true, "prop": true, "pred": true,
 	"uf": true, "at": true, "assumed": true, "trusted": true, "expect": true, "math": true, "fresh": true,
 	"axiom": true, "ghost": true, "havoc": true, "alias": true, "end": true,
-	"ghostfield": true, "define": true, "view": true, "ghostscalar": true, "deterministic": true, "globalinv": true, "preserves": true, "sweep": true, "unboxnonnil": true, "assumepre": true, "iterates": true, "yields": true}
+	"ghostfield": true, "define": true, "view": true, "ghostscalar": true, "deterministic": true, "globalinv": true, "preserves": true, "sweep": true, "unboxnonnil": true, "assumepre": true, "iterates": true, "yields": true, "effects": true}
 
 var labelRe = regexp.MustCompile(`^(requires|ensures|invariant)\[([A-Za-z0-9_.:-]+)\]`)
 
@@ -228,6 +229,20 @@ func (db *ContractDB) parseContractFile(path, pkgPath string, prefix string, ass
 		case "ghostfield", "view", "ghostscalar":
 			cur = nil
 			curUF = nil
+		case "effects":
+			// effects C15 : readonly <import path prefix>
+			cur = nil
+			curUF = nil
+			parts := strings.SplitN(rest, ":", 2)
+			if len(parts) != 2 || len(strings.Fields(parts[1])) != 2 {
+				return fmt.Errorf("%s: effects <props> : <kind> <import path prefix>", src)
+			}
+			fs := strings.Fields(parts[1])
+			ed := EffectDirective{PkgPath: pkgPath, Kind: fs[0], Prefix: fs[1], Src: src}
+			for _, p := range splitTop(parts[0], ',') {
+				ed.Props = append(ed.Props, strings.TrimSpace(p))
+			}
+			db.Effects = append(db.Effects, ed)
 		case "sweep":
 			// sweep C07, C08 : file.go file.go
 			cur = nil
